@@ -1,5 +1,105 @@
-"""C17 conformance family (stub until the generator is ported)."""
+"""C17: the Go conformance tools against the 416-vector cross-language matrix (and the padded half for C11).
+
+For every expectation JSON under tests/conformance/data:
+  * the reference encoder (a Go port of generate-inputs.ts in refmcap) regenerates the binary; its sha256 and size must
+    equal the git-LFS pointer (416 independent pins of the encoder);
+  * the regenerated binary is decoded by refmcap and judged by the TLA+ property layer (WellFormed, IndexExact,
+    CrcRanges, StatsExact with the generator's feature set as configuration): the specification is validated against an
+    artefact it was not written from;
+  * the real lexer and scan iterator read it (content judged against the expectation's data records);
+  * test-write-conformance, built from the working tree, must reproduce the official bytes for the 208 non-padded
+    vectors, and its output is judged by the same TLA+ operators;
+  * test-read-conformance, built from the working tree, must print the expected record stream (streamed, all 416) and
+    the expected indexed result (the vectors the Go runner supports).
+"""
+import os
+import subprocess
+
+from vlib import MachineryError, read_ndjson, REPO, GOENV
+
+RULE = ("every vector of tests/conformance/data (6 inputs x admitted feature combinations: 416, 208 padded); per vector: pin, spec judgement of the "
+        "reference binary, lexer+scan read, read tool streamed (+indexed where supported), write tool (non-padded); non-trivial = every vector; "
+        "distinct = vector names")
+
+
+def build_tools(ctx):
+    tools = {}
+    env = dict(GOENV)
+    env["GOFLAGS"] = ""      # inside /repo/go the go.work file is used
+    for name, d in (("wtool", "test-write-conformance"), ("rtool", "test-read-conformance")):
+        out = os.path.join(ctx.tmp, name)
+        r = subprocess.run(["go", "build", "-o", out, "."], cwd=os.path.join(REPO, "go/conformance", d), env=env, capture_output=True, text=True)
+        if r.returncode != 0:
+            raise MachineryError("cannot build %s from the working tree:\n%s" % (d, r.stderr[-3000:]))
+        tools[name] = out
+    return tools
+
+
+def drive(ctx, prop, which, only=None):
+    tools = build_tools(ctx)
+    trace = os.path.join(ctx.tmp, "conf-%s.ndjson" % which)
+    scratch = os.path.join(ctx.tmp, "confscratch")
+    os.makedirs(scratch, exist_ok=True)
+    args = ["crun", "-repo", REPO, "-out", trace, "-wtool", tools["wtool"], "-rtool", tools["rtool"], "-tmp", scratch, "-which", which]
+    if only:
+        args += ["-only", only]
+    ctx.harness(args, timeout=3000)
+    rej = ctx.tlc_trace("TraceWriter.tla", "TraceWriter.cfg", trace, timeout=3000)
+    events = read_ndjson(trace)
+    n = 0
+    for e in events:
+        if e["ev"] == "Run":
+            n += 1
+            ctx.traces += 1
+            ctx.evaluations += 1
+            ctx.distinct.add(e["id"])
+            if len(ctx.samples) < 3 and n % 131 == 1:
+                ctx.samples.append({"vector": e["id"], "features_cfg": e["cfg"]})
+    if n == 0:
+        raise MachineryError("no conformance vectors found under %s/tests/conformance/data" % REPO)
+    ctx.extra["vectors_and_tool_outputs_judged"] = ctx.extra.get("vectors_and_tool_outputs_judged", 0) + n
+    bad = set()
+    for r in rej:
+        for why in r["why"]:
+            tag = why.split("/")[0]
+            if prop == "C17":
+                sig = why if tag == "C17" else "C17/" + ("WriteToolOutput/" if r["id"].endswith("#written") else "ReferenceFile/") + why
+            else:   # C11: only what the Go readers report on the padded binaries
+                if tag not in ("C01", "C02") and not why.startswith("C17/ReadTool"):
+                    continue
+                sig = "C11/PadVector/" + why
+            bad.add(r["id"])
+            vec = r["id"].split("#")[0]
+
+            def writer(vec=vec):
+                p = os.path.join(ctx.replay_dir(), "vector-%s.json" % vec)
+                open(p, "w").write('{"vector": "%s", "which": "%s"}' % (vec, which))
+                return p
+            ctx.report(sig, writer, "%s trace line %d" % (r["id"], r["line"]))
+    ctx.traces_ok += n - len(bad)
+    os.remove(trace)
 
 
 def pad_vectors(ctx):
-    return
+    drive(ctx, "C11", "pad")
+
+
+def run(ctx, prop):
+    ctx.build()
+    # the property layer the vectors are judged with is the one the writer model is checked against
+    ctx.tlc_model("WriterMC.tla", "Writer_flags.cfg")
+    drive(ctx, "C17", "all")
+    ctx.exhaustive = True
+    ctx.assumptions += [
+        "the expectation JSONs and LFS pointer files under tests/conformance/data are the reference; binaries are regenerated, not downloaded",
+        "the write half is decided on the 208 non-padded vectors: the Go runner declares padded variants unsupported for writing",
+    ]
+    return ctx.finish("model_checking", RULE)
+
+
+def replay(ctx, prop, path):
+    import json
+    ctx.build()
+    o = json.load(open(path))
+    drive(ctx, prop, o.get("which", "all"), only=o["vector"])
+    return ctx.finish("model_checking", RULE)
